@@ -33,6 +33,8 @@ type Config struct {
 	Trace        bool
 	Diff         bool // cross-check definite answers with a second solver
 	ReverseMaps  bool
+	NoMerge      bool
+	NoSummConc   bool
 	SMTLogDir    string
 	Timeouts     [4]int
 }
@@ -44,17 +46,50 @@ func DefaultConfig() *Config {
 
 // Shared is the immutable (after load) program state shared by workers.
 type Shared struct {
-	Prog       *ssa.Program
-	ModulePath string
-	Stubs      map[string]*ssa.Function
-	Sizes      types.Sizes
-	buildMu    sync.Mutex
-	built      map[*ssa.Package]bool
+	Prog          *ssa.Program
+	ModulePath    string
+	Stubs         map[string]*ssa.Function
+	Summarize     map[string]bool
+	StubAlways    map[string]bool
+	SummarizeConc map[string]bool
+	Sizes         types.Sizes
+	buildMu       sync.Mutex
+	built         map[*ssa.Package]bool
+	armMu         sync.Mutex
+	armCache      map[*ssa.BasicBlock]bool
+	DecSites      map[string]int
 }
 
 func NewShared(prog *ssa.Program, modulePath string) *Shared {
-	return &Shared{Prog: prog, ModulePath: modulePath, Stubs: map[string]*ssa.Function{}, built: map[*ssa.Package]bool{},
+	return &Shared{Prog: prog, ModulePath: modulePath, Stubs: map[string]*ssa.Function{}, Summarize: map[string]bool{}, StubAlways: map[string]bool{}, SummarizeConc: map[string]bool{}, armCache: map[*ssa.BasicBlock]bool{}, built: map[*ssa.Package]bool{},
 		Sizes: types.SizesFor("gc", "amd64")}
+}
+
+func (sh *Shared) noteDecision(site string) {
+	sh.armMu.Lock()
+	if sh.DecSites == nil {
+		sh.DecSites = map[string]int{}
+	}
+	sh.DecSites[site]++
+	sh.armMu.Unlock()
+}
+
+// DumpDecisions prints the most frequent fork sites (debugging aid).
+func (sh *Shared) DumpDecisions(n int) {
+	sh.armMu.Lock()
+	defer sh.armMu.Unlock()
+	type kv struct {
+		k string
+		v int
+	}
+	var l []kv
+	for k, v := range sh.DecSites {
+		l = append(l, kv{k, v})
+	}
+	sort.Slice(l, func(a, b int) bool { return l[a].v > l[b].v })
+	for k := 0; k < n && k < len(l); k++ {
+		fmt.Fprintf(os.Stderr, "  fork site %6d  %s\n", l[k].v, l[k].k)
+	}
 }
 
 func (sh *Shared) build(p *ssa.Package) {
@@ -137,6 +172,7 @@ type pathResult struct {
 	samples     []ObligationSample
 	observes    []string
 	assumeFail  bool
+	skipped     int
 	expectPanic bool
 }
 
@@ -230,6 +266,9 @@ func (i *interpreter) decide(c *smt.Term) bool {
 	if len(p.trace) >= i.cfg.MaxDepth {
 		panic(budgetExceeded{"decision depth"})
 	}
+	if i.cfg.Debug && i.curFr != nil {
+		i.sh.noteDecision(i.curFr.pos())
+	}
 	rT, _, eT := i.check(c, false, nil)
 	var rF smt.Result
 	var eF string
@@ -264,6 +303,51 @@ func (i *interpreter) decide(c *smt.Term) bool {
 		return false
 	}
 	panic(pathAbort{"infeasible path condition"})
+}
+
+// decideN picks one of several mutually exclusive, jointly exhaustive conditions.
+func (i *interpreter) decideN(conds []*smt.Term) int {
+	p := i.path
+	if p == nil {
+		panic(unsupported("symbolic decision outside a path"))
+	}
+	if p.pos < len(p.prefix) {
+		d := p.prefix[p.pos]
+		p.pos++
+		p.trace = append(p.trace, d)
+		p.pc = append(p.pc, conds[d.choice])
+		return d.choice
+	}
+	if len(p.trace) >= i.cfg.MaxDepth {
+		panic(budgetExceeded{"decision depth"})
+	}
+	first := -1
+	for k, c := range conds {
+		if c.IsConst() && c.Val == 0 {
+			continue
+		}
+		r, _, e := i.check(c, false, nil)
+		if r == smt.Unsat {
+			continue
+		}
+		if r == smt.Unknown {
+			i.res.unknown = append(i.res.unknown, "branch feasibility: "+e)
+		}
+		if first < 0 {
+			first = k
+			continue
+		}
+		alt := make([]decision, len(p.trace)+1)
+		copy(alt, p.trace)
+		alt[len(p.trace)] = decision{choice: k}
+		i.sh2.push(alt)
+	}
+	if first < 0 {
+		panic(pathAbort{"no feasible alternative"})
+	}
+	p.trace = append(p.trace, decision{choice: first})
+	p.pc = append(p.pc, conds[first])
+	return first
 }
 
 // pickValue concretises term t by forking over its feasible values.
@@ -392,6 +476,17 @@ func (i *interpreter) assert(c value, label string) {
 			i.res.unknown = append(i.res.unknown, "assert "+label+": "+s)
 		}
 	case sym:
+		if i.sh2.violCount(label) >= 6 {
+			// this assertion already has enough counterexamples; do not pay for
+			// more models, continue under the assumption that it holds
+			i.res.skipped++
+			r2, _, _ := i.check(c.t, false, nil)
+			if r2 == smt.Unsat {
+				panic(pathAbort{"assertion fails on the whole path"})
+			}
+			i.path.pc = append(i.path.pc, c.t)
+			return
+		}
 		i.res.obligations++
 		i.res.nontrivial = true
 		t0 := time.Now()
@@ -405,6 +500,7 @@ func (i *interpreter) assert(c value, label string) {
 		case smt.Unsat:
 			i.res.discharged++
 		case smt.Sat:
+			i.sh2.violInc(label)
 			i.violation("assert", label, "", "", m, s)
 			// continue under the assumption that the assertion holds, if possible
 			r2, _, _ := i.check(c.t, false, nil)
@@ -430,6 +526,7 @@ type worklist struct {
 	done    bool
 	pushed  int
 	maxOpen int
+	viol    map[string]int
 }
 
 func newWorklist() *worklist {
@@ -472,6 +569,21 @@ func (w *worklist) pop() ([]decision, bool) {
 	}
 }
 
+func (w *worklist) violCount(label string) int {
+	w.mu.Lock()
+	defer w.mu.Unlock()
+	return w.viol[label]
+}
+
+func (w *worklist) violInc(label string) {
+	w.mu.Lock()
+	if w.viol == nil {
+		w.viol = map[string]int{}
+	}
+	w.viol[label]++
+	w.mu.Unlock()
+}
+
 func (w *worklist) finish() {
 	w.mu.Lock()
 	w.active--
@@ -501,12 +613,14 @@ func newInterpreter(sh *Shared, cfg *Config) *interpreter {
 		persistentInited: map[*ssa.Package]bool{},
 		fninfo:           map[*ssa.Function]*fnInfo{},
 		tb:               smt.NewTable(),
+		summaries:        map[*ssa.Function]*summary{},
 		solver:           smt.NewSolver(),
 		reverseMaps:      cfg.ReverseMaps,
 		tracing:          cfg.Trace,
 	}
 	i.solver.Timeout = cfg.Timeouts
 	i.solver.Diff = cfg.Diff
+	i.solver.Debug = cfg.Debug
 	i.solver.LogDir = cfg.SMTLogDir
 	if rt := sh.Prog.ImportedPackage("runtime"); rt != nil {
 		i.runtimeErrorString = rt.Type("errorString").Object().Type()
@@ -686,6 +800,9 @@ func Explore(sh *Shared, cfg *Config, entry *ssa.Function) *HarnessResult {
 				}
 				if cfg.Debug && hr.Paths%200 == 0 {
 					fmt.Fprintf(os.Stderr, "[%s] paths=%d open=%d viol=%d\n", entry.Name(), hr.Paths, len(wl.items), len(hr.Violations))
+					if hr.Paths%2000 == 0 {
+						go sh.DumpDecisions(12)
+					}
 				}
 				mu.Unlock()
 				wl.finish()
